@@ -43,11 +43,12 @@ ASSUMPTIONS = [
     "caller memory: a heap of arrays with slice headers (array, offset, len, cap) and Go's make/copy/append semantics, used for the append sites",
     "the theorem about tag inequality is the equivalence with GHASH inequality; no irreducibility / collision-probability claim is made",
 ]
-RULE = ("seeded generator (VERIF_SEED): RFC 8998 A.1; IV lengths 1..64 (random / all-ff / half-ff) x 2 (thorough 12) messages; |A|,|P| in 0..80 at IV "
-        "lengths 12, 1, 16, 17 - thorough: the full 81x81 grid, quick: all block-border pairs (0,1,15 mod 16) plus a sample; 16-byte IVs constructed "
-        "(GF(2^128) inversion in the driver) so that J0 ends in fffffffc..ffffffff and the 32-bit counter wraps inside the message; messages up to "
+RULE = ("seeded generator (VERIF_SEED): RFC 8998 A.1; IV lengths 1..64 (random / all-ff / half-ff) x 6 (thorough 14) (|A|,|P|) shapes, block-boundary lengths first; |A|,|P| in 0..80: "
+        "the full 81x81 grid with a 12-byte IV (quick and thorough), at IV lengths 1, 16, 17 the full grid in thorough and all block-border pairs "
+        "(0,1,15 mod 16) plus a tenth of the rest in quick; one case with 64 KiB of A and one with 64 KiB of P (quick: against crypto/cipher and the python GCM only, the extracted model needs ~25 s for each; thorough: also the model); 16-byte IVs constructed "
+        "(GF(2^128) inversion in the driver) so that J0 ends in ff ff ff ff / fe (30 cases, thorough 200, each >= 3 blocks) and the 32-bit counter wraps inside the message; messages up to "
         "4 KiB (thorough 64 KiB); IV, A, P (and C for decryption) placed in front of 0..40 canary bytes in their backing arrays; key lengths "
-        "0..32; every single-bit change of IV, A, C and T for 3 (thorough 12) messages plus truncation/extension and a key bit: the recomputed "
+        "0..32; every single-bit change of IV, A, C and T for 4 (thorough 16) messages with IV lengths 12, 16, 17, 60 and |A|, |C| crossing 16 and 32 bytes plus truncation/extension and a key bit: the recomputed "
         "tag must differ from T; histories of 2..4 calls (Sm4GCM enc/dec, GCMEncrypt, GCMDecrypt, GetH mixed) on ONE backing array per argument, the "
         "next call's values written in place (key bit flipped / key replaced, IV counted up, data reused), each result checked against the "
         "values at call time. Every case is encrypted and decrypted, through Sm4GCM and through GCMEncrypt/GCMDecrypt. Non-trivial: all; "
@@ -116,7 +117,7 @@ def nontrivial(f):
 def classify(f, io):
     if not io:
         return f[0] + ":none"
-    if f[0] == "G":
+    if f[0] in ("G", "B"):
         return "G:iv%s:%s" % ("12" if len(_unhex(f[3])) == 12 else "x", io[0])
     if f[0] == "Q":
         return "Q:%d calls:%s" % (len(f[2].split(",")), io[0])
@@ -124,7 +125,7 @@ def classify(f, io):
 
 
 def same(f, io, mo):
-    if f[0] == "G":
+    if f[0] in ("G", "B"):
         return io[:7] == mo[:7]
     return io == mo
 
@@ -146,7 +147,7 @@ def predicate(f, io):
         return False, "implementation " + (io[0] if io else "gave no result")
     if f[0] != "Q":
         key, iv, a = _unhex(f[2]), _unhex(f[3]), _unhex(f[4])
-    if f[0] == "G":
+    if f[0] in ("G", "B"):
         p = _unhex(f[5])
         if len(key) != 16:
             return (io == ["err"]), "a key of %d bytes was accepted" % len(key)
@@ -163,7 +164,7 @@ def predicate(f, io):
             return False, "GCMEncrypt/GCMDecrypt disagree with Sm4GCM"
         if io[7] != "1":
             return False, "ciphertext/tag differ from crypto/cipher GCM over sm4.NewCipher (the TLS suites' computation)"
-        if len(p) + len(a) <= 4200:
+        if len(p) + len(a) <= 70000:
             wc, j0, h = py_gcm(key, iv, a, p)
             if wc != c:
                 return False, "ciphertext differs from SP 800-38D GCM"
